@@ -62,9 +62,11 @@ class Module:
 
             self.inlined += _normalise(self.tree, normalise, role_names or set())
         if foreign_attrs is not None:
-            from .inline import normalise_new
+            from .inline import normalise_new, expand_context_managers
             from .known_names import KNOWN
 
+            if "contextmanager" in source:
+                self.inlined += expand_context_managers(self.tree, set(KNOWN.get(name, [])))
             self.inlined += normalise_new(self.tree, set(KNOWN.get(name, [])), foreign_attrs)
         self.imports: Dict[str, str] = {}
         self.funcs: Dict[str, "Func"] = {}
